@@ -79,7 +79,14 @@ func (g *pg) stmt(depth int) gen.Val {
 		if g.seenUse {
 			g.stats["export-after-use"]++
 		}
-		switch g.n(0, 2, "exportform") {
+		switch g.n(0, 5, "exportform") {
+		case 3:
+			// a list argument followed by further arguments
+			return gen.Call("export", gen.QL(gen.S(g.sym()), gen.S(g.sym())), gen.QS(g.sym()))
+		case 4:
+			return gen.Call("export", gen.QS(g.sym()), gen.QL(gen.S(g.sym())), gen.Str(g.sym()), gen.QS(g.sym()))
+		case 5:
+			return gen.Call("export", gen.QL(gen.S(g.sym()), gen.QL(gen.S(g.sym()))), gen.Str(g.sym()))
 		case 0:
 			return gen.Call("export", gen.QS(g.sym()))
 		case 1:
